@@ -25,8 +25,10 @@ func RunProperty(c *core.Ctx, prop string, plan Plan, crashIsViolation bool, ext
 	for _, k := range kinds {
 		n := c.N(plan[k][0], plan[k][1])
 		for i := 0; i < n; i++ {
+			DirectedIndex = i
 			cases = append(cases, GenCase(rng, c.SubSeed(k, i), k))
 		}
+		DirectedIndex = -1
 	}
 	cases = append(cases, extraCases...)
 	if len(cases) > 0 {
